@@ -5,6 +5,7 @@ import (
 	"context"
 	"fmt"
 	"io"
+	"net"
 	"net/http"
 	"net/http/httptest"
 	"sort"
@@ -39,9 +40,16 @@ const (
 	kSlow2xx
 	kSlow5xx
 	kTimeout // never answers; the client's timeout ends the attempt
+	// the upstream has read and accepted the request and sent a 2xx status line; only the response
+	// BODY goes wrong.  The status is the outcome: a success.
+	k2xxShortBody   // Content-Length larger than what is written, then the connection is closed
+	k2xxResetBody   // connection reset right after the headers
+	k2xxStalledBody // the body never comes; the client's timeout ends the read
 )
 
-func kindOK(k int) bool { return k == k2xx || k == kSlow2xx }
+func kindOK(k int) bool {
+	return k == k2xx || k == kSlow2xx || k == k2xxShortBody || k == k2xxResetBody || k == k2xxStalledBody
+}
 
 type capStatser struct {
 	stats.Statser
@@ -219,6 +227,41 @@ func (s *upstream) ServeHTTP(w http.ResponseWriter, r *http.Request) {
 		time.Sleep(25 * time.Millisecond)
 		finish()
 		w.WriteHeader(503)
+	case k2xxShortBody:
+		finish()
+		w.Header().Set("Content-Length", "64")
+		w.WriteHeader(200)
+		w.Write([]byte("accepted: "))
+		if f, ok := w.(http.Flusher); ok {
+			f.Flush()
+		}
+		// returning now makes net/http close the connection: the client reads an unexpected EOF
+	case k2xxResetBody:
+		finish()
+		w.Header().Set("Content-Length", "64")
+		w.WriteHeader(200)
+		if f, ok := w.(http.Flusher); ok {
+			f.Flush()
+		}
+		if hj, ok := w.(http.Hijacker); ok {
+			if conn, _, err := hj.Hijack(); err == nil {
+				if tc, ok := conn.(*net.TCPConn); ok {
+					tc.SetLinger(0)
+				}
+				conn.Close()
+			}
+		}
+	case k2xxStalledBody:
+		finish()
+		w.Header().Set("Content-Length", "64")
+		w.WriteHeader(200)
+		if f, ok := w.(http.Flusher); ok {
+			f.Flush()
+		}
+		select {
+		case <-r.Context().Done():
+		case <-time.After(5 * time.Second):
+		}
 	default: // kTimeout
 		finish()
 		select {
